@@ -274,11 +274,14 @@ PREEMPT_RULE = ("preempt: random worlds — a real queue tree (3..9 queues, dept
                 "(sparse resources, priority, allowPreemptOther, required node, age, already triggered). For every world, each on a fresh copy built from the real objects: "
                 "Queue.FindEligiblePreemptionVictims with the snapshot methods before and after 1..5 Add/RemoveAllocation steps; CheckPreconditions under two (delay, attempt frequency, last check) settings; "
                 "CheckPreconditions+TryPreemption without plugin and with a mock preemption predicate plugin (per node allow/deny, index offsets, out-of-range index) that also records the per-node victim lists; "
-                "NewRequiredNodePreemptor(...).tryPreemption on a chosen node; a lowered (still valid) maximum applied with ApplyConf/UpdateQueueProperties and a quota.preemption.delay, then TryQuotaPreemption (synchronous hook). "
+                "NewRequiredNodePreemptor(...).tryPreemption on a chosen node; a lowered (still valid) maximum applied with ApplyConf/UpdateQueueProperties and a quota.preemption.delay, then TryQuotaPreemption (synchronous hook); "
+                "a history of 3..9 steps on one queue: configuration updates (maximum above the usage / below it / lowered again / raised again / incomparable / removed, quota.preemption.delay removed or 10m..2h, larger / smaller / equal), clock advances (hook) and attempts, with the scheduled start time read after every step. "
+                "Property values are spelled in mixed case now and then (Disabled, FENCE, defaulT) and set on the root, on parents and on leaves; the four settings the preemption code reads (preemption.policy, priority.policy, priority.offset, preemption.delay) are COMPUTED by the model from the configured texts (mergeProperties / filterParentProperty / UpdateQueueProperties, shared with C16) and compared with what the real queues report. "
                 "Recorded: victims marked, release messages, triggered flag, preempting per queue, chosen node, snapshots with remaining-guaranteed/preemptable. "
                 "non-trivial = not a reset line; distinct = distinct protocol lines")
 PREEMPT_TRUSTED = ["exact integer arithmetic in the preemption model (no quantity saturates; C18 owns saturation)",
-                   "GetMaxResource() of every queue (fence by max) is read from the implementation (C02 owns it); effective queue properties (policy inheritance) are read back from the real queues",
+                   "GetMaxResource() of every queue (fence by max) is read from the implementation (C02 owns it)",
+                   "quota timing runs on a virtual clock: a hook moves a scheduled start time closer instead of waiting (the code only compares the start time with time.Now()); delays are multiples of minutes, compared at 1 s resolution",
                    "float-valued parts of the quota preemptor (share split in getChildQueuesPreemptableResource, the sort key of SortAllocationsBasedOnAsk): the per-leaf plan is taken from the implementation, "
                    "the selection theorem is proved for every candidate order",
                    "nodes carry no reservations in the generated worlds (the reservation-cancelling branch of initWorkingState is exercised by the full-stack component only)",
@@ -473,20 +476,28 @@ PROPS = {
     ),
     "C19": dict(
         module="YkProps.C19",
-        leancheck=["YkModel.Sort", "YkProofs.Sort", "YkProps.C19"],
+        leancheck=["YkModel.Sort", "YkProofs.Sort", "YkProofs.SortChildren", "YkProps.C19"],
         runs=[dict(comp="sort", quick=1600, thorough=40000)],
         classify=lambda v, case: [w for w in [p.split()[0] + ("-" + p.split()[1] if p.split()[0] == "diff" else "") for p in (v[4:] if v.startswith("inv ") else v).split(" ;; ") if p.split()] if w.startswith("C19.") or w.startswith("diff")],
         nontrivial=lambda line: True,
         rule="sort: (queues) candidate sets of 2..6 sibling queues with many ties (priority, fair share against own guaranteed/fair max, pending) presented to the real sortQueue in two random permutations, for fair/fifo x priority on/off; "
              "(apps) 2..6 applications (ask priority, submission time, usage share) sorted twice by the real sortApplications (its input is a Go map); (asks) histories of inserts/removes on the real sortedRequests incl. extreme int32 priorities; "
              "(nodes) histories of <=35 operations on the real NodeCollection (add/remove node, allocate, release, capacity, occupied, foreign allocations, in-place resize, reserve, policy switch) with both iterators read after every operation "
-             "and fresh scores computed with the policy in force. Share / score floats are reported as ranks. distinct = distinct protocol lines; every line is non-trivial (>= 2 candidates or a node history step)",
-        trusted=["float-valued keys (fair share, usage share, node score) are computed by the implementation and enter the model as ranks; IEEE arithmetic is trusted",
+             "and fresh scores computed with the policy in force; "
+             "(children) a REAL parent queue below a root with/without max and 0..1 intermediate queues (own max sparse/absent), 2..6 real children (own max sparse incl. explicit zeros, guaranteed, allocated, pending incl. nil/empty/zero/negative, priority with offset, "
+             "state Active/Draining/Stopped) built three times (children created in two different orders, and a subset of the siblings); Queue.sortQueues() is called through VerifSortedChildren twice per tree as configured (fair, priority from "
+             "application.sort.priority) and for fair/fifo x priority on/off; the line carries the real own max of every queue on the chain, per child the real keys, its GetFairMaxResource and the rank of its share; the driver compares fair max and share rank with the model "
+             "(fairMaxOf, exact fractions), the offered SET always and the ORDER for every pair the own-key comparator distinguishes (pairs inside a non-weak-order tie group go to the known class). "
+             "Share / score floats are reported as ranks. distinct = distinct protocol lines; every line is non-trivial (>= 2 candidates or a node history step)",
+        trusted=["float-valued keys (fair share, usage share, node score) are computed by the implementation and enter the model as ranks; IEEE arithmetic is trusted "
+                 "(children: the model computes the fair share itself as an exact fraction and the driver compares its ranks with the implementation's float ranks; exact for the generated quantities < 2^26)",
                  "sort.SliceStable is modelled as a stable insertion sort: for a strict weak order every stable sort gives the same result (checked by correspondence)",
                  "google/btree ordered-set contract"],
         assumptions=["node resource types limited to vcore and memory (the default weights; two-term float sums are order independent)"],
         level_text="Lean 4 proofs: a stable sort by an irreflexive transitive comparator yields an inversion-free permutation of the candidates whatever the presentation order (permutation invariance); the queue-priority and the four application comparators are strict weak orders for all keys, "
-                   "the two fair queue comparators are as long as the pending tie-break is not reached, and the tie-break itself is machine-checked NOT to be a weak order (known finding); asks stay in (priority desc, creation time asc) order under insert/remove. "
+                   "the two fair queue comparators are as long as the pending tie-break is not reached, and the tie-break itself is machine-checked NOT to be a weak order (known finding); asks stay in (priority desc, creation time asc) order under insert/remove; "
+                   "Queue.sortQueues (model offeredSorted: filter, parallel fair-max slice, lookup by queue, stable sort): the fair max the comparator reads for a child is fairMaxOf(ancestors' maxima, own max) whatever the siblings and positions (sharing impossible; the shared-object variant is refuted), "
+                   "the result is a permutation of the not-stopped children with pending > 0, and for every sibling set every pair the own-key comparator distinguishes stands in that order (fair policies: given the pending tie-break is an order inside each equal-priority-and-share group), invariant under presentation. "
                    "Tie: correspondence of the model against the real sort functions on permuted presentations + the statement evaluated on the implementation's output; node iteration is checked by monitors only (visit once, unreserved view, fresh order).",
         level_note="trusted: Lean kernel; hand-written comparators tied by correspondence; floats enter as ranks; node iteration order is a monitor (no theorem)",
         technique="Lean 4 proof (strict weak orders, stable sort permutation invariance) + differential correspondence over permuted presentations",
@@ -729,7 +740,7 @@ PROPS = {
              "3000 rounds of add application / add ask / remove application against the scheduling loop (known finding: orphan allocations); and the regression scenarios of repaired defects that must run clean: a configuration reload that drops a partition (must return, partition gone), rejections against readers of the rejected applications, removal of a user's last application against the scheduling loop; "
              "(2b) concurrent FINAL-STATE scenarios (harness/lockfinal.go), each in a child process, a few seconds: 2-3 goroutines (scheduling-loop style, RM-handler style, node handler) released at the same instant by a spin barrier for thousands of rounds drive the real objects from a clean state, then the settled state is compared with the sum of what they did: "
              "first touch of fresh users / groups / queue paths through ugm.Manager (Headroom, CanRunApp, IncreaseTrackedResource; after the matching decreases the trackers are gone), release of a user's last application against the first allocation of the next, queue allocated over root.parent.leaf (TryInc / forced Inc / Dec), node allocations (TryAdd / add / remove / foreign / capacity), "
-             "get-or-create of a dynamic queue and of the recovery queue by concurrent submissions (one object per path, every application in it), and asks / allocations / releases / node updates on a partition against the scheduling loop (partition counters = node allocations = application allocations = queue = tracked user usage; all zero after removing the applications); "
+             "get-or-create of a dynamic queue and of the recovery queue by concurrent submissions (one object per path, every application in it), the node collection under the fair and binpacking policies while 3 goroutines change the same node at the same instant and a reader walks the iterators (at every quiet point both iterators visit every node once, in the order of the scores recomputed from the current node state), and asks / allocations / releases / node updates on a partition against the scheduling loop (partition counters = node allocations = application allocations = queue = tracked user usage; all zero after removing the applications); "
              "(3) thorough only, EVIDENCE ONLY: the concurrent full stack with the threading of Scheduler.StartService (scheduling loop, ONE application+allocation handler, node handler, configuration reloads, real placeholder/state timers, expired-application cleaner, 4 DAO readers) for VERIF_STRESS_SECONDS under -race with go-deadlock enabled; data race reports (one class per pair of conflicting functions), go-deadlock reports, runtime faults, goroutines of the core still blocked on a lock at quiescence, and the full-stack monitors on the final dump. "
              "Every line is non-trivial; distinct = distinct protocol lines",
         trusted=["translator T4 (extract/lockorder.go): SSA construction and the VTA call graph of golang.org/x/tools v0.29.0 (sound up to reflection / unsafe); function values kept by objects of types outside the repository are followed only when handed to a constructor of that type (fsm.NewFSM, btree.New..) and keyed by the struct field that keeps the object; "
